@@ -21,6 +21,10 @@ pub struct Cell {
     pub trials: u32,
     pub rng: RngKind,
     pub seed: u64,
+    /// items fed to the same sampler before a clear() (0 = fresh sampler): after clear() the
+    /// sampler must behave like a fresh one, so the same frequencies are required
+    #[serde(default)]
+    pub prefill: usize,
 }
 
 /// class boundaries for the gap regime: (name, start, end) half-open position ranges
@@ -50,8 +54,14 @@ struct Measurement {
     invalid: Option<String>,
 }
 
-fn one_trial<R: RngCore>(rng: R, k: usize, n: usize, pos_hits: &mut [u64], cls: &[(String, usize, usize)], cls_sum: &mut [f64], cls_sq: &mut [f64], exact: bool) -> Option<String> {
+fn one_trial<R: RngCore>(rng: R, k: usize, n: usize, prefill: usize, pos_hits: &mut [u64], cls: &[(String, usize, usize)], cls_sum: &mut [f64], cls_sq: &mut [f64], exact: bool) -> Option<String> {
     let mut rs: ReservoirSampling<u32, R> = ReservoirSampling::new(k, rng);
+    if prefill > 0 {
+        for j in 0..prefill as u32 {
+            rs.add(u32::MAX - j);
+        }
+        rs.clear();
+    }
     for i in 0..n as u32 {
         rs.add(i);
     }
@@ -94,8 +104,8 @@ fn measure(c: &Cell, seed: u64, trials: u64) -> Measurement {
     for t in 0..trials {
         let s = mix(seed, t);
         let bad = match c.rng {
-            RngKind::Small => one_trial(SmallRng::seed_from_u64(s), c.k, c.n, &mut m.pos_hits, &cls, &mut m.cls_sum, &mut m.cls_sq, exact),
-            RngKind::ChaCha8 => one_trial(ChaCha8Rng::seed_from_u64(s), c.k, c.n, &mut m.pos_hits, &cls, &mut m.cls_sum, &mut m.cls_sq, exact),
+            RngKind::Small => one_trial(SmallRng::seed_from_u64(s), c.k, c.n, c.prefill, &mut m.pos_hits, &cls, &mut m.cls_sum, &mut m.cls_sq, exact),
+            RngKind::ChaCha8 => one_trial(ChaCha8Rng::seed_from_u64(s), c.k, c.n, c.prefill, &mut m.pos_hits, &cls, &mut m.cls_sum, &mut m.cls_sq, exact),
         };
         if bad.is_some() {
             m.invalid = bad;
@@ -189,7 +199,7 @@ impl Check for C05 {
         let adds = c.trials as u64 * c.n as u64;
         let regime: &'static str = if c.n <= 4 * c.k + 1 { "exact_regime" } else { "gap_regime" };
         if f1.is_empty() {
-            return Verdict::Pass(Info::new(true, hash64(&(c.k, c.n, c.rng))).class(regime).detail(d1).inner(adds));
+            return Verdict::Pass(Info::new(true, hash64(&(c.k, c.n, c.rng, c.prefill))).class_if(c.prefill > 0, "reused_after_clear").class(regime).detail(d1).inner(adds));
         }
         // confirmation with fresh seeds and 4x the sample
         let m2 = measure(c, mix_str(c.seed, "confirm"), 4 * c.trials as u64);
@@ -197,13 +207,13 @@ impl Check for C05 {
         if f2.is_empty() {
             let mut d = d1;
             d["screening_failed_confirmation_passed"] = json!(f1.iter().map(|f| f.1.clone()).collect::<Vec<_>>());
-            return Verdict::Pass(Info::new(true, hash64(&(c.k, c.n, c.rng))).class(regime).class("screening_failed_confirmation_passed").detail(d).inner(5 * adds));
+            return Verdict::Pass(Info::new(true, hash64(&(c.k, c.n, c.rng, c.prefill))).class_if(c.prefill > 0, "reused_after_clear").class(regime).class("screening_failed_confirmation_passed").detail(d).inner(5 * adds));
         }
         let _ = d2;
         let (sig, msg) = &f2[0];
         fail(
-            format!("{}:{}", regime, sig),
-            format!("k = {}, n = {} ({:?}): {} [confirmed with {} fresh trials; first screening: {}]", c.k, c.n, c.rng, msg, m2.trials, f1[0].1),
+            format!("{}{}:{}", regime, if c.prefill > 0 { ":reused-after-clear" } else { "" }, sig),
+            format!("k = {}, n = {} ({:?}, prefill {} then clear()): {} [confirmed with {} fresh trials; first screening: {}]", c.k, c.n, c.rng, c.prefill, msg, m2.trials, f1[0].1),
         )
     }
 }
@@ -227,13 +237,13 @@ fn cells(tier: Tier, seed: u64) -> Vec<Cell> {
             }
             let trials = (hits * n as f64 / k as f64).ceil() as u32;
             let rng = if (k + n) % 5 == 0 { RngKind::ChaCha8 } else { RngKind::Small };
-            v.push(Cell { k, n, trials, rng, seed: mix(seed, (k * 100_003 + n) as u64) });
+            v.push(Cell { k, n, trials, rng, seed: mix(seed, (k * 100_003 + n) as u64), prefill: 0 });
         }
     }
     if tier == Tier::Thorough {
         for &k in &[64usize, 100] {
             for n in [k + 1, 2 * k, 4 * k, 4 * k + 1] {
-                v.push(Cell { k, n, trials: (hits * n as f64 / k as f64).ceil() as u32, rng: RngKind::Small, seed: mix(seed, (k * 100_003 + n) as u64) });
+                v.push(Cell { k, n, trials: (hits * n as f64 / k as f64).ceil() as u32, rng: RngKind::Small, seed: mix(seed, (k * 100_003 + n) as u64), prefill: 0 });
             }
         }
     }
@@ -261,8 +271,14 @@ fn cells(tier: Tier, seed: u64) -> Vec<Cell> {
             let want = tier.pick(1.0e4, 4.0e4) * n as f64 / k as f64;
             let cap = tier.pick(4.0e8, 4.0e9) / n as f64;
             let trials = want.min(cap).max(2000.0) as u32;
-            v.push(Cell { k, n, trials, rng: if n % 3 == 0 { RngKind::ChaCha8 } else { RngKind::Small }, seed: mix(seed, (k * 100_003 + n) as u64) });
+            v.push(Cell { k, n, trials, rng: if n % 3 == 0 { RngKind::ChaCha8 } else { RngKind::Small }, seed: mix(seed, (k * 100_003 + n) as u64), prefill: 0 });
         }
+    }
+    // samplers reused after clear(): same requirement as for fresh ones
+    for &(k, n, prefill) in &[(1usize, 5usize, 40usize), (4, 17, 200), (8, 33, 1000), (64, 384, 4000), (64, 1280, 800), (64, 1280, 20_000), (128, 640, 3000), (16, 60, 70)] {
+        let exact = n <= 4 * k + 1;
+        let trials = if exact { (hits / 4.0 * n as f64 / k as f64).ceil() as u32 } else { (tier.pick(1.0e4, 4.0e4) * n as f64 / k as f64).min(tier.pick(2.0e8, 2.0e9) / (n + prefill) as f64) as u32 };
+        v.push(Cell { k, n, trials: trials.max(2000), rng: RngKind::Small, seed: mix(seed, (k * 100_003 + n + 7 * prefill) as u64), prefill });
     }
     v
 }
@@ -272,7 +288,7 @@ pub fn checks() -> Vec<Box<dyn DynCheck>> {
 }
 
 pub fn run(ctx: &Ctx) {
-    ctx.set_rule("cells (k, n): exact regime n <= 4k+1 for k in {1,2,3,4,8,16,32} (thorough also 64, 100) with n in {k+1,k+2,2k,3k,4k-1,4k,4k+1} plus generated n; gap regime k in {64,128,256} (thorough 1024) with n from 4k+2 to 64k and 100000 plus generated n. Each cell runs many independent trials (SmallRng / ChaCha8 seeded from VERIF_SEED), the stream being position ids. Exact regime: every single position's inclusion count against Binomial(T, k/n) at z = 6 plus a chi-square over positions; gap regime: classes first k / plain phase / switch item / the k items after it / stream deciles / last k against k/n within the documented envelope (1 + ln(n/4k))/k plus 6 cluster-robust standard errors. A flagged cell is re-measured with 4x the trials and fresh seeds; only a confirmed deviation is a violation. Non-trivial: every cell with n > k; distinct = (k, n, rng family). evaluations = cells + adds executed.");
+    ctx.set_rule("cells (k, n): exact regime n <= 4k+1 for k in {1,2,3,4,8,16,32} (thorough also 64, 100) with n in {k+1,k+2,2k,3k,4k-1,4k,4k+1} plus generated n; gap regime k in {64,128,256} (thorough 1024) with n from 4k+2 to 64k and 100000 plus generated n. Each cell runs many independent trials (SmallRng / ChaCha8 seeded from VERIF_SEED), the stream being position ids. Exact regime: every single position's inclusion count against Binomial(T, k/n) at z = 6 plus a chi-square over positions; gap regime: classes first k / plain phase / switch item / the k items after it / stream deciles / last k against k/n within the documented envelope (1 + ln(n/4k))/k plus 6 cluster-robust standard errors. A flagged cell is re-measured with 4x the trials and fresh seeds; only a confirmed deviation is a violation. Eight further cells feed a sampler, clear() it and then measure the same frequencies on the reused sampler. Non-trivial: every cell with n > k; distinct = (k, n, rng family, prefill). evaluations = cells + adds executed.");
     ctx.assume("probability is taken over SmallRng (xoshiro256++) and ChaCha8 seeds; z = 6 one-sided per assertion with confirmation");
     ctx.run_regressions(&[&C05]);
     ctx.run_fixed(&C05, cells(ctx.tier, ctx.seed));
